@@ -373,6 +373,9 @@ def evaluate(P, cases, harness, driver, tier, result):
             judge = run_lines([driver, P.ID, "judge"], jl, timeout)
     recs = []
     for c, o, m, j in zip(cases, impl, model, judge):
+        if "CRASH deadline" in (o, m, j):
+            result["skipped_deadline"] = result.get("skipped_deadline", 0) + 1
+            continue
         r = {"case": c, "impl": o, "model": m, "judge": j, "diff": None, "fail": None}
         if o is not None and m is not None:
             cmpf = getattr(P, "compare", None)
@@ -497,8 +500,6 @@ def main():
     pid = args.prop.upper()
     P = load_prop(pid)
     t_start = time.time()
-    # overall budget for running cases: a code change that makes the implementation hang must not hang the check
-    DEADLINE[0] = t_start + float(os.environ.get("VERIF_DEADLINE_S", "1500" if tier == "quick" else "3300"))
     os.makedirs(BUILD, exist_ok=True)
     os.makedirs(os.path.join(VERIF, "evidence"), exist_ok=True)
     result = {"broken": [], "timing": {}}
@@ -512,6 +513,11 @@ def main():
     with Lock("gobuild_" + pid):
         harness = build_harness(P, result)
     driver = build_driver(result)
+
+    # overall budget for running cases: a code change that makes the implementation hang must not hang the check.
+    # It starts here, after the proofs and builds (waiting for the shared lake lock on a loaded machine is not case time);
+    # cases the budget cuts off are not evaluated (counted as skipped_deadline), a hanging harness is a CRASH timeout.
+    DEADLINE[0] = time.time() + float(os.environ.get("VERIF_DEADLINE_S", "1500" if tier == "quick" else "3300"))
 
     # 4 cases
     rng = random.Random(seed * 1000003 + int(hashlib.sha1(pid.encode()).hexdigest()[:6], 16))
@@ -534,6 +540,9 @@ def main():
         cases += P.gen_cases(rng, tier)
     recs = evaluate(P, cases, harness, driver, tier, result) if (harness or driver) else []
 
+    if cases and not recs and result.get("skipped_deadline"):
+        result["broken"].append({"kind": "correspondence", "what": "no case could be run within the time budget (VERIF_DEADLINE_S)",
+                                 "detail": f"{result['skipped_deadline']} cases cut off"})
     diffs = [r for r in recs if r["diff"]]
     fails = [r for r in recs if r["fail"]]
     if diffs:
@@ -639,6 +648,7 @@ def main():
         "wall_s": round(time.time() - t_start, 2),
         "violations": 1 if violation else 0,
         "timing": result["timing"],
+        "skipped_deadline": result.get("skipped_deadline", 0),
         "broken": result["broken"],
     }
     # evidence/ describes runs against /repo itself; a run against another tree (VERIF_REPO, used for seeded changes
